@@ -5,6 +5,7 @@ Import ListNotations.
 From Snaps Require Import Base.Bytes Base.Lines.
 From Snaps Require Import Model.Difflib Model.DifflibSpec Model.Report Model.ReportSpec.
 From Snaps Require Import Proofs.DifflibP Proofs.ReportP.
+From Snaps Require Import Model.Summary Model.ReportReader Proofs.ReportReaderP.
 
 (* comparing two texts yields an empty report iff they are byte-identical *)
 Theorem C13_empty_iff : forall (a b name : bytes) (line : nat),
@@ -114,3 +115,39 @@ Example C13_example :
   length (get_opcodes (split_newlines a) (split_newlines b)) = 3 /\
   pretty_diff_nocolor a b [] 0 <> [].
 Proof. vm_compute. repeat split; discriminate. Qed.
+
+(* ---------- the PRINTED BYTES carry the structure ---------- *)
+
+(* an independent line-oriented reader of the NO_COLOR report (header counts with their padding, 2-byte line prefixes, range
+   lines, footer) recovers from the printed bytes exactly the counts and the shown lines the report was printed from *)
+Theorem C13_report_readable : forall a b name line,
+  a <> b -> name_ok name = true ->
+  read_report (pretty_diff_nocolor a b name line) =
+  Some {| rr_del_count := r_del (unified_nocolor a b); rr_ins_count := r_ins (unified_nocolor a b);
+          rr_lines := r_lines (unified_nocolor a b);
+          rr_footer := match name with [] => None | _ :: _ => Some (name, line) end |}.
+Proof. exact read_report_correct. Qed.
+Print Assumptions C13_report_readable.
+
+(* hence, about the bytes: the two numbers in the header equal the numbers of `- ` and `+ ` lines shown *)
+Theorem C13_printed_counts : forall a b name line,
+  a <> b -> name_ok name = true ->
+  exists rr, read_report (pretty_diff_nocolor a b name line) = Some rr /\
+             rr_del_count rr = count_del (rr_lines rr) /\ rr_ins_count rr = count_ins (rr_lines rr).
+Proof. exact printed_counts. Qed.
+(* every line printed behind `- ` is a line of the stored text, every line behind `+ ` a line of the received text *)
+Theorem C13_printed_lines_truthful : forall a b name line,
+  a <> b -> name_ok name = true ->
+  exists rr, read_report (pretty_diff_nocolor a b name line) = Some rr /\
+             (forall l, In (RDel l) (rr_lines rr) -> In l (split_newlines a)) /\
+             (forall l, In (RIns l) (rr_lines rr) -> In l (split_newlines b)).
+Proof. exact printed_lines_truthful. Qed.
+(* two reports with the same bytes show the same lines and counts *)
+Theorem C13_printed_injective : forall a b name line a' b' name' line',
+  a <> b -> name_ok name = true -> name_ok name' = true ->
+  pretty_diff_nocolor a b name line = pretty_diff_nocolor a' b' name' line' ->
+  unified_nocolor a b = unified_nocolor a' b' /\ name = name' /\ (name <> [] -> line = line').
+Proof. exact printed_injective. Qed.
+Print Assumptions C13_printed_counts.
+Print Assumptions C13_printed_lines_truthful.
+Print Assumptions C13_printed_injective.
